@@ -52,7 +52,10 @@ pub struct TScenario {
 fn boundary_text(r: &mut Rng, cols: usize) -> String {
     let cols = cols.max(10);
     let alphabet: [&str; 8] = ["a", "b", "\u{fc}", "\u{2501}", "\u{1F600}", " ", "\u{e9}", "x"];
-    let target = match r.below(10) {
+    let range = if r.pct(6) { 1 } else { 10 };
+    let target = match r.below(range) {
+        // lengths around powers of two: fixed-size message buffers / caps
+        0 if r.pct(50) => [255usize, 256, 511, 512, 1023, 1024, 1025, 2047, 2048, 4095, 4096][r.below(11)] + r.below(9),
         0 => r.below(8),
         1 => cols + r.below(40),
         2 => cols * 3,
@@ -200,6 +203,9 @@ static PLAN: Mutex<Option<TScenario>> = Mutex::new(None);
 static EXECUTED: Mutex<Vec<usize>> = Mutex::new(Vec::new());
 /// (bytes captured so far when the width was set, width)
 static WIDTHS: Mutex<Vec<(usize, u16)>> = Mutex::new(Vec::new());
+/// (bytes captured so far, step id, 0 = command entered / 1 = command about to return /
+/// 2 = display told "started" / 3 = display about to be told "finished")
+static EVENTS: Mutex<Vec<(usize, usize, u8)>> = Mutex::new(Vec::new());
 static MASTER: std::sync::atomic::AtomicI32 = std::sync::atomic::AtomicI32::new(-1);
 
 fn set_cols(cols: u16) {
@@ -209,6 +215,14 @@ fn set_cols(cols: u16) {
     }
     let at = tty::CAPTURED.lock().map(|c| c.len()).unwrap_or(0);
     WIDTHS.lock().unwrap().push((at, cols));
+}
+
+/// the display has just been told that a command started (kind 2) / is about to be told
+/// that it finished (kind 3)
+fn task_event(cmdline: &str, kind: u8) {
+    let id: usize = cmdline.split(' ').nth(1).and_then(|t| t.strip_prefix('s')).and_then(|t| t.parse().ok()).unwrap_or(usize::MAX);
+    let at = tty::CAPTURED.lock().map(|c| c.len()).unwrap_or(0);
+    EVENTS.lock().unwrap().push((at, id, 2 + kind));
 }
 
 fn sim_cmd(cmdline: &str, out: &mut dyn FnMut(&[u8])) -> anyhow::Result<Termination> {
@@ -222,6 +236,11 @@ fn sim_cmd(cmdline: &str, out: &mut dyn FnMut(&[u8])) -> anyhow::Result<Terminat
         None => return Ok(Termination::Failure),
     };
     EXECUTED.lock().unwrap().push(id);
+    let mark = |kind: u8| {
+        let at = tty::CAPTURED.lock().map(|c| c.len()).unwrap_or(0);
+        EVENTS.lock().unwrap().push((at, id, kind));
+    };
+    mark(0);
     if let Some(w) = step.resize {
         set_cols(w);
     }
@@ -232,9 +251,11 @@ fn sim_cmd(cmdline: &str, out: &mut dyn FnMut(&[u8])) -> anyhow::Result<Terminat
         shuttle::thread::sleep(std::time::Duration::from_secs(0));
     }
     if step.fail {
+        mark(1);
         return Ok(Termination::Failure);
     }
     std::fs::write(format!("o{}", id), b"x")?;
+    mark(1);
     Ok(Termination::Success)
 }
 
@@ -294,6 +315,7 @@ fn prepare(sc: &TScenario, dir: &str) {
     std::fs::write("build.ninja", render(sc)).unwrap();
     *PLAN.lock().unwrap() = Some(sc.clone());
     EXECUTED.lock().unwrap().clear();
+    EVENTS.lock().unwrap().clear();
     WIDTHS.lock().unwrap().clear();
     PANICS.lock().unwrap().clear();
     tty::CAPTURED.lock().unwrap().clear();
@@ -301,6 +323,7 @@ fn prepare(sc: &TScenario, dir: &str) {
     tty::CLOCK_NS.store(1_000_000_000, std::sync::atomic::Ordering::SeqCst);
     tty::TIMEOUT_BUDGET.store(sc.timeout_budget, std::sync::atomic::Ordering::SeqCst);
     *n2::verif::SHUTTLE_CMD.lock().unwrap() = Some(sim_cmd);
+    *n2::verif::SHUTTLE_TASK_EVENT.lock().unwrap() = Some(task_event);
     let mut args: Vec<String> = vec!["-j".into(), sc.j.to_string()];
     if let Some(k) = sc.k {
         args.extend(["-k".to_string(), k.to_string()]);
@@ -431,6 +454,7 @@ fn judge(sc: &TScenario, panicked: bool) -> TResult {
     let cap = tty::CAPTURED.lock().unwrap().clone();
     let executed = EXECUTED.lock().unwrap().clone();
     let widths = WIDTHS.lock().unwrap().clone();
+    let events = EVENTS.lock().unwrap().clone();
     let panics = PANICS.lock().unwrap().clone();
     if res.is_err() || !panics.is_empty() {
         let msg = panics.first().cloned().unwrap_or_else(|| "panic (no message captured)".into());
@@ -499,6 +523,7 @@ fn judge(sc: &TScenario, panicked: bool) -> TResult {
     // its top (progress.update) after every earlier failure
     let mut failed_lines_now = 0usize;
     let mut required_failed = 0usize;
+    let mut last_done: Option<(usize, usize)> = None;
     while let Some(rel) = find_cursor_up(&cap[pos..]) {
         let (start, end, n) = (pos, pos + rel.0, rel.2);
         let chunk = &cap[start..end];
@@ -547,13 +572,48 @@ fn judge(sc: &TScenario, panicked: bool) -> TResult {
                 break;
             }
             Ok((done, total, running)) => {
+                // ---- the counts against what the commands really did (C19).  A frame is
+                // composed and written with the display state locked, and a command is
+                // announced (task_started) before it runs and retired (task_finished) after
+                // it returned: so a command that entered before this frame's bytes and
+                // returns after them is in the running count, and a step counted as finished
+                // has a command that returned before them.
+                let frame_len: usize = frame.iter().map(|l| l.len() + 1).sum();
+                let fstart = end - frame_len;
+                let entered = |id: usize| events.iter().find(|e| e.1 == id && e.2 == 0).map(|e| e.0);
+                let returned = |id: usize| events.iter().find(|e| e.1 == id && e.2 == 1).map(|e| e.0);
+                let announced = |id: usize| events.iter().find(|e| e.1 == id && e.2 == 2).map(|e| e.0);
+                let retiring = |id: usize| events.iter().find(|e| e.1 == id && e.2 == 3).map(|e| e.0);
+                let _ = entered;
+                let executing = sc.steps.iter().filter(|s| announced(s.id).map(|a| a <= fstart).unwrap_or(false) && retiring(s.id).map(|a| a >= end).unwrap_or(true)).count();
+                let returned_n = sc.steps.iter().filter(|s| returned(s.id).map(|a| a <= fstart).unwrap_or(false)).count();
+                let returned_fail = sc.steps.iter().filter(|s| s.fail && returned(s.id).map(|a| a <= fstart).unwrap_or(false)).count();
+                if !panicked {
+                    if running < executing {
+                        v.push(("running-undercount".into(), format!("{} commands had been announced to the display as started and not yet as finished while this frame was drawn, the status line says {:?}", executing, String::from_utf8_lossy(bar))));
+                    }
+                    if running > sc.j {
+                        v.push(("running-over-j".into(), format!("-j {} but the status line says {:?}", sc.j, String::from_utf8_lossy(bar))));
+                    }
+                    if done > returned_n {
+                        v.push(("finished-overcount".into(), format!("only {} commands had returned when this frame was drawn, the status line says {:?}", returned_n, String::from_utf8_lossy(bar))));
+                    }
+                    if let Some(&(pd, _)) = last_done.as_ref() {
+                        if done < pd {
+                            v.push(("finished-decreased".into(), format!("finished count went from {} to {}: {:?}", pd, done, String::from_utf8_lossy(bar))));
+                        }
+                    }
+                    last_done = Some((done, total));
+                }
                 let failed_shown = std::str::from_utf8(bar).ok().and_then(|t| t.split(" done, ").nth(1)).and_then(|r| r.split_once(" failed, ")).and_then(|(f, _)| f.parse::<usize>().ok()).unwrap_or(0);
                 // descriptions are random text: only count when no description can fake a "failed: " line
                 let fakeable = sc.steps.iter().any(|s| s.desc.starts_with("failed: ") || s.chunks.iter().any(|c| c.starts_with(b"failed: ") || find_sub(c, b"\nfailed: ").is_some()));
                 // Only while the main loop is demonstrably still turning: keep-going without budget
                 // (the k-th failure returns at once, without another update) and another command
                 // still running (otherwise the loop may have ended right after the failure).
-                let _ = running;
+                if !fakeable && !panicked && failed_shown > returned_fail {
+                    v.push(("failed-overcount".into(), format!("only {} failing commands had returned when this frame was drawn, the status line says {:?}", returned_fail, String::from_utf8_lossy(bar))));
+                }
                 if !fakeable && sc.k.is_none() && failed_shown < required_failed {
                     v.push(("status-counts-stale".into(), format!("{} command(s) had failed before another command's completion was shown, yet the status line still says {:?}", required_failed, String::from_utf8_lossy(bar))));
                 }
@@ -908,12 +968,14 @@ fn minimise(sc: &TScenario, code: &str, dir: &str) -> TScenario {
     cur
 }
 
+const C19_CODES: [&str; 6] = ["status-counts-stale", "running-undercount", "running-over-j", "finished-overcount", "finished-decreased", "failed-overcount"];
+
 /// oracle codes each property's tty leg reports
 fn codes_of(prop: &str) -> Option<Vec<&'static str>> {
     match prop {
         "C16" => Some(vec!["task-output-shown-once"]),
-        "C19" => Some(vec!["status-counts-stale", "bar-counts"]),
-        _ => None, // C20: everything
+        "C19" => Some(C19_CODES.to_vec()),
+        _ => None, // C20: everything but the count-accuracy codes of C19
     }
 }
 
@@ -978,6 +1040,8 @@ fn check(prop: &str, tier: &str) -> i32 {
     }
     if let Some(codes) = codes_of(prop) {
         viols.retain(|v| codes.contains(&v.code.as_str()));
+    } else {
+        viols.retain(|v| !C19_CODES.contains(&v.code.as_str()));
     }
     viols.sort_by_key(|v| (v.code.clone(), v.seed));
     let mut by: BTreeMap<String, Vec<VLine>> = BTreeMap::new();
@@ -1002,11 +1066,23 @@ fn check(prop: &str, tier: &str) -> i32 {
         if code != "process-abort" {
             let _ = Command::new(std::env::current_exe().unwrap()).args(["minimise", &path]).stdout(Stdio::null()).stderr(Stdio::null()).status();
         }
-        let st = Command::new(std::env::current_exe().unwrap()).args(["replay", &path]).stdout(Stdio::null()).stderr(Stdio::null()).status();
-        let ok = match st {
-            Ok(s) => s.code() == Some(1) || (code == "process-abort" && s.code().is_none()),
-            Err(_) => false,
+        // a panic inside n2 may turn into a process abort (a second panic while unwinding,
+        // e.g. in a destructor that meets a poisoned lock): for the never-panics / never-aborts
+        // oracles the death of the replaying process reproduces the violation
+        let abort_class = code == "process-abort" || code == "panic";
+        let replay_ok = |path: &str| -> bool {
+            let st = Command::new(std::env::current_exe().unwrap()).args(["replay", path]).stdout(Stdio::null()).stderr(Stdio::null()).status();
+            match st {
+                Ok(s) => s.code() == Some(1) || (abort_class && s.code().is_none()),
+                Err(_) => false,
+            }
         };
+        let mut ok = replay_ok(&path);
+        if !ok && code != "process-abort" {
+            // the minimised scenario does not reproduce in a fresh process: keep the original one
+            std::fs::write(&path, serde_json::to_string_pretty(&rp).unwrap()).unwrap();
+            ok = replay_ok(&path);
+        }
         if !ok {
             eprintln!("harness error: replay of {} did not reproduce", path);
             return 2;
